@@ -176,6 +176,15 @@ example : WellFormed 10 exTree :=
    ⟨⟨by decide, by intro ls h; cases h; rfl⟩, ⟨⟨by decide, by intro ls h; cases h⟩, trivial⟩⟩⟩
 example : load (-63) 10 (save (-63) exTree) = .ok exTree := by decide
 
+/-- `Load(Save(t)) = t` on the binary layout as bytes (magic string, six 32-bit header words, per node the index and either
+    `lower[2]`, `upper[2]` (64 bit each), `child[2]` or the `bucket` leaf slots; little endian two's complement), for every
+    well-formed tree whose fields fit their C++ types -/
+theorem save_load_roundtrip_binary (realspec maxbucket : Int) (t : Tree) (extra : List Nat) (h : WellFormed maxbucket t)
+    (hrs : In32 realspec) (hnp : In32 t.numpoints) (hcost : In32 t.cost) (hmb : In32 maxbucket) (hr : NodesRange t.nodes) :
+    loadBin realspec maxbucket (saveBin realspec t ++ extra) = .ok t :=
+  loadBin_saveBin realspec maxbucket t extra h hrs hnp hcost hmb hr
+example : loadBin (-63) 10 (saveBin (-63) exTree) = .ok exTree := by decide
+
 /-- everything `Load` accepts passes the header checks and `Node::Check` *with the node's own position as the bound on
     its child pointers* (fix 49e729b): in particular children are stored before their parents, so the child pointers of
     an accepted file cannot form a cycle -/
